@@ -11,11 +11,15 @@ Rec == ndJsonDeserialize(IOEnv.TRACE)
 VARIABLE l
 
 B2I(b) == IF b THEN 1 ELSE 0
+\* a text without its leading and trailing spaces
+Trim(s) == LET keep == {i \in 1..Len(s) : s[i] # 32} IN
+           IF keep = {} THEN <<>> ELSE SubSeq(s, CHOOSE i \in keep : \A j \in keep : i <= j, CHOOSE i \in keep : \A j \in keep : i >= j)
 
 AllowedC13(e) ==
   CASE e.op = "c2u"    -> e.pop = WordOf(e.id).pop /\ e.tz = WordOf(e.id).tz
     [] e.op = "u2c"    -> e.out = CardOfBit(e.bit)
     [] e.op = "ctext"  -> e.s = CardText(e.id)
+    [] e.op = "cpad"   -> Trim(e.s) = CardText(e.id)      \* formatted with a width / alignment: the card's text, padding aside
     [] e.op = "cparts" -> e.rank = RankOf(e.id) /\ e.suit = SuitOf(e.id)
     [] e.op = "cparse" -> e.out = CardFromText(e.s)
     [] e.op = "rank"   -> /\ e.u8 = e.r /\ e.ch = RankChr[e.r + 1] /\ e.disp = <<RankChr[e.r + 1]>>
